@@ -1,4 +1,5 @@
 SPEC = {
+    "coq_targets": ["Findings/CacheConc.vo"],
     "runners": [
         {"kind": "c08stress", "harness": "c08conc", "name": "famA", "family": "A",
          "corr": "free-running -race stress of FifoMapCache, family A (no Clear/Resize, one writer per key): must be clean",
